@@ -59,6 +59,13 @@ def repro_models():
     out.append(("fixed-cdd653bd-unit-after-bool", rec("FX3", [G.Field("a", bl), G.Field("b", ui, bits=31)]), []))
     # holes after `int :0` in packed / packed(N) structs
     out.append(("fixed-3c2ba0f3-pack1-zero-width", rec("FX4", [G.Field("a", S("short", True, 16)), G.Field(None, S("int", True, 32), bits=0), G.Field("b", ull)], pragma=1), []))
+    # packed(N) records (pragma pack + an over-aligned plain member) with a zero-width separator opening a hole in front of a bit-field run
+    out.append(("fixed-packN-separator-run-2", rec("FX6", [G.Field("id", S("int", True, 32)), G.Field("tag", ch), G.Field(None, S("short", True, 16), bits=0),
+                                                       G.Field("kind", ui, bits=5), G.Field("len", ui, bits=11)], pragma=2), []))
+    out.append(("fixed-packN-separator-run-4", rec("FX7", [G.Field("q", ull), G.Field("t", ch), G.Field(None, S("int", True, 32), bits=0), G.Field("a", ui, bits=3),
+                                                       G.Field("b", sh_, bits=9), G.Field("z", ch)], pragma=4), []))
+    out.append(("fixed-packN-separator-run-2b", rec("FX8", [G.Field("d", S("double", True, 64, "float")), G.Field("t", ch), G.Field("u", ch), G.Field("v", ch),
+                                                        G.Field(None, S("short", True, 16), bits=0), G.Field("a", sc, bits=7), G.Field("b", ui, bits=17)], pragma=2), []))
     out.append(("fixed-55fd0099-pack2-zero-width", rec("FX5", [G.Field("a", ch), G.Field(None, S("int", True, 32), bits=0), G.Field("b", S("int", True, 32))], pragma=2), []))
     return out
 
